@@ -20,6 +20,8 @@ import KafkaVerif.Lemmas.ReaderSystem
 import KafkaVerif.Lemmas.ByteReader
 import KafkaVerif.Lemmas.BufVarInt
 import KafkaVerif.Lemmas.ByteHeader
+import KafkaVerif.Lemmas.ByteLocal
+import KafkaVerif.Lemmas.ByteWalk
 
 namespace KV.C02
 
@@ -287,6 +289,67 @@ theorem header_bytes (c : Nat) (hc : c < RW.M32) :
       ∀ x, readH1 (encH1 c m ++ x) = some (⟨m.offset, m.magic, m.attributes, (encB1 m).length⟩, x)) :=
   ⟨fun f hf => ⟨BR.readHeaderB_v2 c f hf, fun x => readH2_encH2 c hc f hf x⟩,
    fun m hm => ⟨BR.readHeaderB_v1 c m hm, fun x => readH1_encH1 c hc m hm x⟩⟩
+
+/-- `reads_within_remain`: no byte-level read of the decoder looks at or consumes a byte beyond `remain`, the unread part
+of the current message set.  `BR.Local p`: on two connections that agree on the next `remain` bytes (and hold at least
+that many) `p` returns the same value or error, hands back the same `remain` and has consumed the same number of bytes,
+at most `remain` — what follows the set on the connection (the next response) is invisible.  Holds for `readHeader`,
+the record part of `readMessageV2`, and the three bodies of `readMessageV1` (read, skipped, wrapper); by composition
+(`local_bind`, `local_guard`) from `readInt`, `readVarInt`, `readNewBytes`, `discardN`. -/
+theorem reads_within_remain :
+    BR.Local BR.readHeaderB ∧ BR.Local BR.readRecordV2 ∧ BR.Local BR.readBodyV1 ∧ BR.Local BR.skipBodyV1 ∧
+    BR.Local BR.readWrapV1 :=
+  ⟨BR.local_readHeaderB, BR.local_readRecordV2, BR.local_readBodyV1, BR.local_skipBodyV1, BR.local_readWrapV1⟩
+
+/-- `cut_then_next_response`: the "cut" clauses of `header_bytes`, `record_bytes`, `message_bytes` about the situation on a
+real connection: the broker cut the message set inside a batch header / a record / key + value of a message (only the
+first `remain` bytes of it belong to the set) and the connection goes on with `Y`, the next response.  The reader fails
+with errShortRead and has not consumed more than what was left of the set. -/
+theorem cut_then_next_response (Y : Bytes) (remain : Nat) :
+    (∀ (c : Nat) (f : Spec.RB.FrameV2), f.WF → remain < (encH2 c f).length →
+      ∃ r', BR.readHeaderB ⟨(encH2 c f).take remain ++ Y, remain⟩ = .error (.short, r') ∧ r'.remain ≤ remain) ∧
+    (∀ rec : Spec.RB.RecV2, remain < (Spec.RB.encRec rec).length →
+      ∃ r', BR.readRecordV2 ⟨(Spec.RB.encRec rec).take remain ++ Y, remain⟩ = .error (.short, r') ∧ r'.remain ≤ remain) ∧
+    (∀ m : Spec.RB.Msg, RW.InRange RW.M32 (Spec.RB.optLen m.key : Int) → RW.InRange RW.M32 (Spec.RB.optLen m.value : Int) →
+      remain < (encB1 m).length →
+      ∃ r', BR.readBodyV1 ⟨(encB1 m).take remain ++ Y, remain⟩ = .error (.short, r') ∧ r'.remain ≤ remain) :=
+  ⟨fun c f hf h => BR.cut_is_short (BR.readHeaderB_v2 c f hf) BR.local_readHeaderB Y remain h,
+   fun rec h => BR.cut_is_short (BR.readRecordV2_spec rec) BR.local_readRecordV2 Y remain h,
+   fun m hk hv h => BR.cut_is_short (BR.readBodyV1_spec m hk hv) BR.local_readBodyV1 Y remain h⟩
+
+/-- `walk_bytes`: **bytes → tokens as one theorem about the Go reads**, for message sets of uncompressed v2 batches.
+`BR.walk` (Model/ByteWalk.lean) strings the byte-level statements together the way the decoder runs them over a message
+set: `readHeaderB` (readHeader field by field), then `count` × `readRecordV2` (the record part of readMessageV2), each
+with `remain` = what is left of the set, errShortRead ends it.  On the reference encoding of any list of batches, cut at
+any byte `n`, it emits exactly `truncate (tokens of the layout) n` — the token stream `single_fetch` is about and the
+one `tokenize` produces (`tokenize_items`).  Uses `header_bytes` / `record_bytes` for the parts that are complete and
+`reads_within_remain` for the part the cut goes through.  `dgv` digests a record as the Go code holds it, `dg2` as
+the log stores it; `hdg`: they agree. -/
+theorem walk_bytes (dgv : Int → BR.RecView → Nat) (dg2 : Int → Spec.RB.RecV2 → Nat)
+    (hdg : ∀ fts r, dgv fts (BR.viewOf r) = dg2 fts r) (crc : Bytes → Nat)
+    (bs : List BBatch) (hbs : ∀ b ∈ bs, b.frame.WF) (n : Nat) :
+    BR.walk dgv (n + 1) none ((encSetV2 crc bs).take n) = truncate (allTokens (layoutOf dg2 bs)) n :=
+  BR.walk_set dgv dg2 hdg crc bs hbs n (n + 1) (by omega)
+
+/-- `single_fetch_walk`: `single_fetch` with the tokens read off the bytes by the Go statements (`BR.walk`) instead of
+given: for any log of uncompressed v2 batches in its reference encoding (holes, empty batches, batches beginning before
+the start offset: whatever `LWF` admits), cut at any byte, any start offset — the decoder delivers exactly the stored
+records at or above `o` that lie completely within the first `n` bytes, never desynchronises, never jumps over a
+stored record. -/
+theorem single_fetch_walk (dgv : Int → BR.RecView → Nat) (dg2 : Int → Spec.RB.RecV2 → Nat)
+    (hdg : ∀ fts r, dgv fts (BR.viewOf r) = dg2 fts r) (crc : Bytes → Nat)
+    (bs : List BBatch) (hbs : ∀ b ∈ bs, b.frame.WF) (nb : Int) (hnb : 0 ≤ nb) (hwf : LWF nb (layoutOf dg2 bs))
+    (o hwm : Int) (ho : 0 ≤ o) (hsafe : Safe o (layoutOf dg2 bs)) (hne : hwm ≠ o) (expired : Bool) (n : Nat) :
+    let toks := BR.walk dgv (n + 1) none ((encSetV2 crc bs).take n)
+    (readAll .fixed expired o hwm toks).1 = (contained (layoutOf dg2 bs) n).filter (fun r => o ≤ r.1) ∧
+    (readAll .fixed expired o hwm toks).2.2 ≠ .desync ∧
+    (∀ r ∈ allRecords (layoutOf dg2 bs), o ≤ r.1 → r.1 < (readAll .fixed expired o hwm toks).2.1 →
+      r ∈ (readAll .fixed expired o hwm toks).1) := by
+  have h := single_fetch (layoutOf dg2 bs) nb hnb hwf o hwm ho hsafe hne (n : Int) expired
+  have hc : ¬ ((n : Int) < 0) := by omega
+  simp only [responseTokens, containedRecords, hc, if_false, Int.toNat_natCast] at h
+  simp only [walk_bytes dgv dg2 hdg crc bs hbs n]
+  exact ⟨h.1, h.2.1, h.2.2.1⟩
 
 /-- `varint_refill`: the byte-level theorems above know a reader as the bytes it can still deliver.  The one function of
 read.go whose control flow depends on where the *buffered* bytes end is `readVarInt` (the fixed-width readers use
